@@ -22,6 +22,7 @@ RULE = ("Operations attach (add_child), detach (remove_child), declare (add_name
         "every tree equals the model, so nothing outside the operated subtree changes.  Non-trivial: a prefix re-declared "
         "on a node that at that moment shares its dict object with a node outside its subtree; distinct (state, op) pairs.")
 RULE += ('  Forest nodes carry element names a library may treat specially (metadata, additionalMetadata, references, eml ...).')
+RULE += ('  The empty namespace name is one of the URIs.')
 ASSUMPTIONS = [
     "on attach, for strict descendants of the child that already had their own binding only presence of the prefix is checked",
     "for the bulk helpers only the locality clause (nodes outside the subtree unchanged) is checked",
